@@ -58,9 +58,16 @@ class World:
     def gather(self, tree, t, wc):
         src = self.tok[t][1 if wc else 0]
         # a fresh object per offer, as a receiver would build it from the wire / database
-        tok = self.Token(src.previous_token_hash, content_hash=src.content_hash, signature=src.signature)
-        if wc:
-            tok.receive_content(self.content[t])
+        self.n_made = getattr(self, "n_made", 0) + 1
+        if self.n_made % 3 == 0:
+            # as rebuilt from a stored row; for Gather(t, FALSE) a row whose content column does not hash to the signed
+            # pointer (corrupt / tampered): the spec's "copy without content" covers it - nothing may be attached
+            tok = self.Token.from_database_tuple(src.previous_token_hash, src.signature, src.content_hash,
+                                                 self.content[t] if wc else b"content that does not match")
+        else:
+            tok = self.Token(src.previous_token_hash, content_hash=src.content_hash, signature=src.signature)
+            if wc:
+                tok.receive_content(self.content[t])
         # tokens carry no key: a receiver offers one and the same object to the views of several trees. The view of the
         # OTHER key sees it first here; whatever that tree concludes must not influence the tree under test.
         self.n_offer = getattr(self, "n_offer", 0) + 1
